@@ -482,6 +482,9 @@ FILE_PREFIXES = [b'\xef\xbb\xbf', b'\xef\xbb\xbf\n', b'\xef\xbb\xbf\n\n', b'\xef
                  b'\xe2\x80\x8b', b'\xc2\xa0x\n', b'\xef\xbb\xbf\xef\xbb\xbf', b'\x00\n']
 
 
+INSIDE_BYTES = [b'\xff', b'\xc3', b'\xed\xa0\x80', b'\xc0\xaf', b'\xfe\xff', b'\x80']
+
+
 def run_filejunk(u, ctx):
     """The signed top-level Manifest as a FILE (read through the loader's own
     open/decoding path) with non-blank bytes in front of, or behind, the signed
@@ -498,8 +501,16 @@ def run_filejunk(u, ctx):
     where = ['before', 'after'][(u['i'] // len(FILE_PREFIXES)) % 2]
     api = ['lib', 'cli'][(u['i'] // (2 * len(FILE_PREFIXES))) % 2]
     raw = junk + signed.encode() if where == 'before' else signed.encode() + junk
+    if u.get('inside'):
+        # bytes that are not UTF-8 inside the signed text (in the path of the entry):
+        # whatever the decoding does with them, the signed bytes have changed
+        junk = INSIDE_BYTES[u['i'] % len(INSIDE_BYTES)]
+        where = 'inside'
+        api = ['lib', 'cli'][(u['i'] // len(INSIDE_BYTES)) % 2]
+        raw = signed.encode().replace(b'DATA a ', b'DATA a' + junk + b' ', 1)
+        ctx.count('gpg:fileinside_cases')
     case = {'kind': 'filejunk', 'i': u['i'], 'junk': junk.hex(), 'where': where,
-            'api': api}
+            'api': api, 'inside': bool(u.get('inside'))}
     ctx.case(sig=('filejunk', junk.hex(), where, api), case=case, klass='gpg-filejunk')
     ctx.count('gpg:filejunk_cases')
     logging.getLogger().setLevel(logging.CRITICAL)
@@ -526,13 +537,20 @@ def run_filejunk(u, ctx):
                 except GematoException:
                     accepted = False
         except Exception as exc:
+            if where == 'inside':
+                return      # (not UTF-8: outside the domain, and not accepted)
             ctx.violation('gpg-load-raises:' + adapt.exc_key(exc), 'loading a signed '
                           'Manifest file with junk %s the block raised %r'
                           % (where, exc), case)
             return
         finally:
             os.environ.pop('GNUPGHOME', None)
-        if accepted:
+        if accepted and where == 'inside':
+            ctx.violation('non-utf8-bytes-in-signed-text-accepted', 'a Manifest file '
+                          'whose signed text was changed by inserting the bytes %r (not '
+                          'UTF-8) into an entry is reported as validly signed (%s)'
+                          % (junk, api), case)
+        elif accepted:
             ctx.violation('junk-outside-signed-block-accepted:' + where, 'a Manifest '
                           'file with the non-blank bytes %r %s the signed block is '
                           'reported as validly signed (%s)' % (junk, where, api), case)
